@@ -1,6 +1,9 @@
 package ecdsa
 
 import (
+	"errors"
+
+	"github.com/taurusgroup/multi-party-sig/internal/safecbor"
 	"github.com/taurusgroup/multi-party-sig/pkg/math/curve"
 )
 
@@ -12,6 +15,19 @@ type Signature struct {
 // EmptySignature returns a new signature with a given curve, ready to be unmarshalled.
 func EmptySignature(group curve.Curve) Signature {
 	return Signature{R: group.NewPoint(), S: group.NewScalar()}
+}
+
+// UnmarshalCBOR restores a signature stored with cbor.Marshal. The receiver must come from EmptySignature.
+// Malformed data is an error, and so is a signature whose R is the identity or whose S is zero.
+func (sig *Signature) UnmarshalCBOR(data []byte) error {
+	type plain Signature // the same fields, decoded the default way
+	if err := safecbor.Unmarshal(data, (*plain)(sig)); err != nil {
+		return err
+	}
+	if sig.R == nil || sig.R.IsIdentity() || sig.S == nil || sig.S.IsZero() {
+		return errors.New("signature: R is the identity or S is zero")
+	}
+	return nil
 }
 
 // Verify is a custom signature format using curve data.
